@@ -246,7 +246,7 @@ def main():
     quick = ck.tier == 'quick'
     dl = ck.deadline
     engine.phase(ck, 'pre-set validation: setters x {pass, veto, rewrite} x 3 prior states', shard_preset, [dl])
-    for N in ([4, 5, 6] if quick else [5, 6, 7]):
+    def main_phase(N):
         shards = []
         full = variant(127)
         alpha = S.alphabet_for(full)
@@ -256,6 +256,8 @@ def main():
             for ch in engine.chunks(frontier, 12):
                 shards.append((masks, N, ch, dl))
         engine.phase(ck, 'E1 N=%d x 128 callback subsets x failing invocation k = 0..K' % N, shard, shards, subsets=128)
+    Ns = [4, 5, 6] if quick else [5, 6, 7]
+    main_phase(Ns[0])
     # the same with the validation callbacks registered by schema path (cfg_set_validate_func) before the parse
     Nb = 4 if quick else 6
     shards = []
@@ -296,6 +298,8 @@ def main():
             shards.append(([conf], Nk, ch, dl))
     engine.phase(ck, 'E1 N=%d: float / bool / string / pointer parse callbacks, a single section addressed by path, registration under CFGF_NOCASE' % Nk,
                  shard, shards, configurations=len(confs))
+    for N in Ns[1:]:
+        main_phase(N)       # the deeper bounds last: everything above has run when the deadline cuts them short
     ck.assumptions = ['validation calls: the log is compared after collapsing consecutive identical calls (same option, same count, same last value)',
                       'after a failing invocation the option of the item in which it happened is not compared']
     ck.finish('schema variant (subset of 7 callback slots) x E1 token sequence x index of the failing invocation; non-trivial = distinct (expected log, verdict)')
